@@ -282,7 +282,9 @@ fn process_message(ctx: &Ctx, bytes: &[u8], armored: bool) {
         let mut d = pgp::armor::Dearmor::new(bytes);
         let _ = drain(&mut d);
     }
-'modes: for mode in [0, 1] {
+    // the out-of-band session key is offered only when no ESK packet leads the message (an offered key pre-empts the ESK path)
+    let has_esk = deframe_one(bytes).map(|(d, _)| d.tag == 1 || d.tag == 3).unwrap_or(false);
+    'modes: for mode in [0, 1] {
         let parsed = if armored { Message::from_armor(bytes).map(|x| x.0) } else { Message::from_bytes(bytes) };
         let Ok(msg) = parsed else { return };
         let pw = Password::from(PW);
@@ -293,7 +295,7 @@ fn process_message(ctx: &Ctx, bytes: &[u8], armored: bool) {
             secret_keys: keys,
             key_passwords: vec![&empty],
             message_password: vec![&pw],
-            session_keys: vec![PlainSessionKey::V3_4 { sym_alg: SymmetricKeyAlgorithm::AES128, key: gk[..].into() }, PlainSessionKey::V6 { key: gk[..].into() }, PlainSessionKey::V5 { key: gk[..].into() }],
+            session_keys: if has_esk && !armored { vec![] } else { vec![PlainSessionKey::V3_4 { sym_alg: SymmetricKeyAlgorithm::AES128, key: gk[..].into() }, PlainSessionKey::V6 { key: gk[..].into() }, PlainSessionKey::V5 { key: gk[..].into() }] },
             decrypt_options: { let o = DecryptionOptions::new().enable_gnupg_aead().enable_legacy(); if mode == 1 { o.set_seipdv1_read_mode(Seipdv1ReadMode::Streaming) } else { o } },
         };
         let mut msg = if msg.is_encrypted() { match msg.decrypt_the_ring(ring, mode == 0) { Ok((m, _)) => m, Err(_) => continue 'modes } } else { msg };
@@ -828,7 +830,7 @@ pub fn worker(cases_path: &str, out_path: &str, tier: &str, seed: u64, resume_pa
     let jl = |s: String| { let mut j = journal.lock().unwrap(); let _ = writeln!(j, "{s}"); let _ = j.flush(); };
     // watchdog: thread slot -> (group, variant, start)
     let inflight: Arc<Mutex<HashMap<usize, (usize, usize, Instant, String)>>> = Arc::new(Mutex::new(HashMap::new()));
-    let limit = Duration::from_secs(if thorough { 120 } else { 45 });
+    let limit = Duration::from_secs(if thorough { 90 } else { 25 });
     {
         let inflight = inflight.clone();
         let out = out.clone();
@@ -853,6 +855,7 @@ pub fn worker(cases_path: &str, out_path: &str, tier: &str, seed: u64, resume_pa
         if start == usize::MAX && only.is_none() { return; }
         let fam = &cases[*ci];
         let label = format!("{} / {} / {} / {} : {}", fam["family"]["kind"].as_str().unwrap(), fam["family"]["target"].as_str().unwrap(), fam["family"]["carrier"].as_str().unwrap(), fam["family"]["container"].as_str().unwrap(), field);
+        if let Ok(f) = std::env::var("C04_ONLY_LABEL") { if !label.contains(&f) { return; } }
         let vs = match guard(|| Ok::<_, String>(variants(&ctx, fam, field))) { Out::Ok(v) => v, o => {
             let r = rec("c04.generator", json!({"group": gi, "label": label}), !o.is_panic(), "hostile_input", json!({"outcome": o.class(), "detail": format!("while BUILDING the artefacts (library calls on the way): {}", o.detail())}));
             let mut f = out.lock().unwrap(); let _ = writeln!(f, "{r}"); jl(format!("D {gi}")); return; } };
@@ -920,6 +923,11 @@ pub fn supervise(cases_path: &str, out_path: &str, tier: &str, seed: u64) {
             }
         }
         if st.success() { break; }
+        if bad.len() >= 6 {
+            // enough evidence: every further hang costs a watchdog period and a worker restart
+            extra_records.push(json!({"ok": true, "check": "c04.supervisor", "note": format!("stopped early after {} variants that hung or killed the worker", bad.len())}));
+            break;
+        }
         let inflight: Vec<(usize, usize)> = started.iter().filter(|(_, e)| !**e).map(|(k, _)| *k).collect();
         for h in &hung { bad.insert(*h); }
         if st.code() != Some(3) {
@@ -948,4 +956,24 @@ pub fn supervise(cases_path: &str, out_path: &str, tier: &str, seed: u64) {
     let _ = writeln!(o, "{}", json!({"summary": true, "evaluations": total, "failed": failed, "extra": {"cases": cases.len(), "nontrivial": total, "groups": n_groups, "slowest_groups": slowest}}));
     let _ = std::fs::remove_file(&resume_path);
     let _ = std::fs::remove_file(&journal_path);
+}
+
+pub fn dbg(cases_path: &str, carrier: &str, cont: &str) {
+    let cases = read_cases(cases_path);
+    let ctx = Ctx::new(cases, 1, false);
+    let lit = literal(b"hello world");
+    let m = wrap_message(&ctx, carrier, cont, &lit, 1).unwrap();
+    println!("{}", hex::encode(&m));
+    let msg = Message::from_bytes(&m[..]);
+    println!("parse: {:?}", msg.as_ref().map(|_| ()).map_err(|e| e.to_string()));
+    let msg = msg.unwrap();
+    let pw = Password::from(PW);
+    let empty = Password::empty();
+    let keys: Vec<&SignedSecretKey> = ctx.certs.values().collect();
+    let ring = TheRing { secret_keys: keys, key_passwords: vec![&empty], message_password: vec![&pw], session_keys: vec![], decrypt_options: DecryptionOptions::new().enable_gnupg_aead().enable_legacy() };
+    let res = msg.decrypt_the_ring(ring, true);
+    match res {
+        Ok((mut m, r)) => { println!("ring {r:?}"); println!("read: {:?}", drain(&mut m)); }
+        Err(e) => println!("decrypt: {e}"),
+    };
 }
